@@ -259,7 +259,8 @@ let () =
                    | Fuel -> "fuel")
                | "authdata", [ flavour; rp; flags; count; acd; ext ] -> (
                    let acd =
-                     if acd = "-" then None
+                     (* get_assertion: Some(NoAttestedCredentialData) serialises to nothing *)
+                     if acd = "-" || flavour <> "mc" then None
                      else
                        match String.split_on_char ':' acd with
                        | [ a; i; k ] -> Some { ac_aaguid = bytes_of_hex a; ac_id = bytes_of_hex i; ac_key = bytes_of_hex k }
